@@ -120,6 +120,63 @@ def gen_page(rng, selfname=None):
     return "\n".join(lines) + "\n"
 
 
+class HandlerMonitor:
+    """Observes, on the REAL handlers, the hypothesis of theorem handler_stack_discipline: the bookkeeping stacks /
+    counters of a handler have the same size after exit_node(x) as before enter_node(x), and are empty at page end."""
+    WATCH = {
+        "ContentsHandler": ["scanned_pattern", "current_depth"],
+        "TabsSelectorHandler": ["scanned_pattern"],
+        "SubstitutionHandler": ["include_replacement_definitions", "active_references"],
+    }
+
+    def __init__(self):
+        self.problems = []
+        self.saved = {}
+
+    @staticmethod
+    def size(obj, attr):
+        v = getattr(obj, attr, None)
+        return v if isinstance(v, int) else (len(v) if v is not None else 0)
+
+    def __enter__(self):
+        import snooty.postprocess as P
+        mon = self
+        for cname, attrs in self.WATCH.items():
+            cls = getattr(P, cname, None)
+            if cls is None:
+                continue
+            for meth in ("enter_node", "exit_node", "exit_page"):
+                if meth not in cls.__dict__:
+                    continue
+                orig = cls.__dict__[meth]
+                self.saved[(cls, meth)] = orig
+
+                def wrap(orig=orig, meth=meth, attrs=attrs, cname=cname):
+                    def f(self_, stack, node):
+                        if meth == "enter_node":
+                            marks = self_.__dict__.setdefault("_verif_marks", {})
+                            marks[id(node)] = [mon.size(self_, a) for a in attrs]
+                        r = orig(self_, stack, node)
+                        if meth == "exit_node":
+                            before = self_.__dict__.get("_verif_marks", {}).pop(id(node), None)
+                            now = [mon.size(self_, a) for a in attrs]
+                            if before is not None and before != now:
+                                mon.problems.append(f"{cname}.{attrs}: sizes {before} before enter_node but {now} after exit_node of a {type(node).__name__}")
+                        if meth == "exit_page":
+                            now = [mon.size(self_, a) for a in attrs]
+                            if any(now):
+                                mon.problems.append(f"{cname}.{attrs}: sizes {now} at the end of a page")
+                        return r
+                    return f
+                setattr(cls, meth, wrap())
+        return self
+
+    def __exit__(self, *a):
+        for (cls, meth), orig in self.saved.items():
+            setattr(cls, meth, orig)
+        return False
+
+
 class C02(core.PropertyCheck):
     id = "C02"
     quick_budget = 2500
@@ -248,8 +305,10 @@ class C02(core.PropertyCheck):
                 pages.append(page)
         except Exception as e:
             return {"exc": None, "parse_exc": type(e).__name__}  # parse totality is C01's business
+        monitor = HandlerMonitor()
         try:
-            res = pp.run(pages, cfg)
+            with monitor:
+                res = pp.run(pages, cfg)
         except Exception as e:
             where, line = "?", 0
             t = e.__traceback__
@@ -263,7 +322,7 @@ class C02(core.PropertyCheck):
                 t = t.tb_next
             return {"exc": type(e).__name__, "msg": str(e)[:120], "where": where, "line": line}
         missing = [f for f in case["files"] if f.endswith(".txt") and n.FileId(f) not in res.pages]
-        return {"exc": None, "missing_pages": missing, "ndiag": sum(len(v) for v in res.diagnostics.values()),
+        return {"exc": None, "missing_pages": missing, "bookkeeping": monitor.problems[:3], "ndiag": sum(len(v) for v in res.diagnostics.values()),
                 "has_meta": isinstance(res.metadata, dict)}
 
     # ---- model (event walk only)
@@ -311,6 +370,8 @@ class C02(core.PropertyCheck):
             return f"postprocessing raised {impl['exc']} at {impl['where']} {msg}".strip()
         if impl["missing_pages"]:
             return f"pages not delivered: {impl['missing_pages']}"
+        if impl.get("bookkeeping"):
+            return f"handler bookkeeping unbalanced: {impl['bookkeeping'][0]}"
         return None
 
     def finding_key(self, case, impl, desc):
